@@ -1,1 +1,2 @@
 import HvLatSpec.Model.Tombstone
+import HvLatSpec.Model.Lattice
